@@ -95,7 +95,7 @@ type AddrObs struct {
 type Result struct {
 	Kind   string    `json:"kind"` // ok|err|addrs|props|acct|key|script
 	Err    string    `json:"err,omitempty"`
-	Addrs  []AddrObs `json:"addrs,omitempty"`
+	Addrs  []AddrObs `json:"addrs"`
 	Props  [2]uint32 `json:"props"`
 	Acct   uint32    `json:"acct"`
 	Key    *KeyRef   `json:"key,omitempty"`
@@ -205,7 +205,17 @@ func (o *oracleDB) ensureScope(seed uint64, scope [2]uint32) {
 	}
 	o.done[key] = true
 	for a := uint32(0); a <= maxTableAcct; a++ {
-		vs, err := hdoracle.HardenedPath(o.master(seed), []uint32{scope[0], scope[1], a})
+		// what hdkeychain effectively does inside waddrmgr: the root key (NewMaster
+		// or parsed) still has 32 bytes -> standard; purpose key and, for account
+		// 0 (derived together with the scope), the coin-type key are used as
+		// derived in memory -> legacy; later accounts are derived from the parsed
+		// coin-type key -> standard.  The rules differ only below a private key
+		// with a leading zero byte.
+		rules := []hdoracle.Rule{hdoracle.Standard, hdoracle.Legacy, hdoracle.Standard}
+		if a == 0 {
+			rules[2] = hdoracle.Legacy
+		}
+		vs, err := hdoracle.HardenedPath(o.master(seed), []uint32{scope[0], scope[1], a}, rules)
 		if err != nil {
 			panic(err)
 		}
@@ -238,7 +248,8 @@ func (o *oracleDB) xpub(id int) *hdoracle.Key {
 	if err != nil {
 		panic(err)
 	}
-	vs, err := hdoracle.HardenedPath(m, []uint32{84, 0, uint32(id % 5)})
+	vs, err := hdoracle.HardenedPath(m, []uint32{84, 0, uint32(id % 5)},
+		[]hdoracle.Rule{hdoracle.Legacy, hdoracle.Legacy, hdoracle.Legacy})
 	if err != nil {
 		panic(err)
 	}
